@@ -22,9 +22,9 @@ INT_RANGE = {"int32": (-2**31, 2**31 - 1), "sint32": (-2**31, 2**31 - 1), "sfixe
 # element kinds: target type number, options message, standard option fields the generator may use
 ELEMENTS = {
     "file": (1, "google.protobuf.FileOptions", ["java_package", "java_multiple_files", "optimize_for", "deprecated", "cc_enable_arenas", "go_package"]),
-    "extrange": (2, "google.protobuf.ExtensionRangeOptions", ["verification"]),
+    "extrange": (2, "google.protobuf.ExtensionRangeOptions", ["verification", "declaration"]),
     "message": (3, "google.protobuf.MessageOptions", ["deprecated", "no_standard_descriptor_accessor"]),
-    "field": (4, "google.protobuf.FieldOptions", ["deprecated", "ctype", "jstype", "lazy", "debug_redact", "feature_support"]),
+    "field": (4, "google.protobuf.FieldOptions", ["deprecated", "ctype", "jstype", "lazy", "debug_redact", "feature_support", "targets", "edition_defaults"]),
     "oneof": (5, "google.protobuf.OneofOptions", []),
     "enum": (6, "google.protobuf.EnumOptions", ["deprecated"]),
     "enumval": (7, "google.protobuf.EnumValueOptions", ["deprecated", "debug_redact", "feature_support"]),
@@ -121,7 +121,7 @@ def _std_kind(sch, std, f, enum_idx, msg_idx):
     return k
 
 
-def gen_schema(ctx, rng, ek, rich=True, tdense=False):
+def gen_schema(ctx, rng, ek, rich=True, tdense=False, p3=None):
     """A random schema for options on element kind ek.  rich=False: scalars, paths and repeated fields only.
     tdense=True: every third field / extension (message-typed ones included, which is what makes the steps of a name
     path and the fields of nested literals meet a target-type restriction) declares `targets`."""
@@ -153,6 +153,8 @@ def gen_schema(ctx, rng, ek, rich=True, tdense=False):
     for i in range(nm):
         sch.msgs.append({"name": "M%d" % (i + 1), "fields": [], "where": "main", "extendable": rng.chance(1, 2)})
     use_p3 = rich and rng.chance(1, 3)
+    if p3 is not None:
+        use_p3 = p3
     if use_p3:
         sch.msgs.append({"name": "P3", "fields": [], "where": "p3", "extendable": False})
     user_msgs = [i for i, m in enumerate(sch.msgs) if m["where"] != "std"]
@@ -421,6 +423,238 @@ def targets_corpus():
     return out
 
 
+def _std_base(ctx, ek):
+    """schema holding only the options message of ek (msgs[0]) with the standard fields of ELEMENTS and what they refer to;
+    -> (schema, finish) - call finish() after the user messages have got their indices"""
+    std = std_schema(ctx)
+    tt, optmsg, stdfields = ELEMENTS[ek]
+    sch = Schema()
+    sch.ek = ek
+    std_enum_idx, std_msg_idx, pending = {}, {}, []
+
+    def enum_idx(full):
+        if full not in std_enum_idx:
+            e = std["enums"][full]
+            sch.enums.append({"name": full, "values": [(n, v) for n, v in e["values"]], "closed": e["closed"], "where": "std"})
+            std_enum_idx[full] = len(sch.enums) - 1
+        return std_enum_idx[full]
+
+    def msg_idx(full):
+        if full not in std_msg_idx:
+            sch.msgs.append({"name": full, "fields": [], "where": "std", "extendable": False})
+            std_msg_idx[full] = len(sch.msgs) - 1
+            pending.append(full)
+        return std_msg_idx[full]
+
+    def finish():
+        while pending:
+            full = pending.pop()
+            mi = std_msg_idx[full]
+            for f in (std["messages"][full] or []):
+                if f["map"] or f["kind"] == "group":
+                    continue
+                sch.msgs[mi]["fields"].append(Field(f["name"], f["number"], _std_kind(sch, std, f, enum_idx, msg_idx),
+                                                    rep=f["repeated"], oneof=(None if f["oneof"] < 0 else f["oneof"]),
+                                                    implicit=f["implicit"], targets=f["targets"] or []))
+    msg_idx(optmsg)
+    return sch, finish
+
+
+def twin_schema(ctx, ek):
+    """The schema in which one field DESCRIPTOR is reached through several paths of one options message: sibling
+    sub-messages of one type (W.l / W.r, two extensions xp / xp2 of one type), recursive types (sub, W.w), repeated
+    message elements (W.rp, xrp, P3.rs), for fields without presence (proto3 P3, edition 2023 ED with
+    features.field_presence = IMPLICIT) and with presence (proto2 Q, `optional` / message fields of P3, plain fields of ED):
+      message W  { P3 l, r; repeated P3 rp; Q lq, rq; ED le, re; W w; oneof { P3 ol; P3 orr; } }     (proto2)
+      message Q  { int32 a; string s; Q sub; repeated int32 r; bool b; }                             (proto2)
+      message P3 { int32 a; string s; bool b; OE e; double d; optional int32 o; P3 sub; repeated int32 r; repeated P3 rs; bytes y; uint64 u; float g; }
+      message ED { int32 a [IMPLICIT]; string s [IMPLICIT]; int32 o; ED sub; repeated int32 r; EE e [IMPLICIT]; bool b [IMPLICIT]; }
+      extend <options of ek> { W xw; P3 xp, xp2; Q xq, xq2; ED xe, xe2; repeated P3 xrp; }"""
+    sch, finish = _std_base(ctx, ek)
+    W, Q, P, E = 1, 2, 3, 4
+    sch.msgs.append({"name": "W", "fields": [], "where": "main", "extendable": False})
+    sch.msgs.append({"name": "Q", "fields": [], "where": "main", "extendable": False})
+    sch.msgs.append({"name": "P3", "fields": [], "where": "p3", "extendable": False})
+    sch.msgs.append({"name": "ED", "fields": [], "where": "ed", "extendable": False})
+    finish()
+    sch.enums.append({"name": "OE", "values": [("OE_Z", 0), ("OE_A", 1), ("OE_B", 7)], "closed": False, "where": "p3"})
+    oe = len(sch.enums) - 1
+    sch.enums.append({"name": "EE", "values": [("EE_Z", 0), ("EE_A", 1)], "closed": False, "where": "ed"})
+    ee = len(sch.enums) - 1
+    sch.msgs[W]["fields"] += [Field("l", 1, ("msg", P)), Field("r", 2, ("msg", P)), Field("rp", 3, ("msg", P), rep=True),
+                              Field("lq", 4, ("msg", Q)), Field("rq", 5, ("msg", Q)), Field("le", 6, ("msg", E)),
+                              Field("re", 7, ("msg", E)), Field("w", 8, ("msg", W)),
+                              Field("ol", 9, ("msg", P), oneof=0), Field("orr", 10, ("msg", P), oneof=0)]
+    sch.msgs[Q]["fields"] += [Field("a", 1, "int32"), Field("s", 2, "string"), Field("sub", 3, ("msg", Q)),
+                              Field("r", 4, "int32", rep=True), Field("b", 5, "bool")]
+    sch.msgs[P]["fields"] += [Field("a", 1, "int32", implicit=True), Field("s", 2, "string", implicit=True),
+                              Field("b", 3, "bool", implicit=True), Field("e", 4, ("enum", oe), implicit=True),
+                              Field("d", 5, "double", implicit=True), Field("o", 6, "int32"), Field("sub", 7, ("msg", P)),
+                              Field("r", 8, "int32", rep=True), Field("rs", 9, ("msg", P), rep=True),
+                              Field("y", 10, "bytes", implicit=True), Field("u", 11, "uint64", implicit=True),
+                              Field("g", 12, "float", implicit=True)]
+    sch.msgs[E]["fields"] += [Field("a", 1, "int32", implicit=True), Field("s", 2, "string", implicit=True), Field("o", 3, "int32"),
+                              Field("sub", 4, ("msg", E)), Field("r", 5, "int32", rep=True), Field("e", 6, ("enum", ee), implicit=True),
+                              Field("b", 7, "bool", implicit=True)]
+    for i, (n, k, rep) in enumerate([("xw", ("msg", W), False), ("xp", ("msg", P), False), ("xp2", ("msg", P), False),
+                                     ("xq", ("msg", Q), False), ("xq2", ("msg", Q), False), ("xe", ("msg", E), False),
+                                     ("xe2", ("msg", E), False), ("xrp", ("msg", P), True)]):
+        sch.exts.append({"name": n, "extendee": 0, "field": Field(n, 50001 + i, k, rep)})
+    return sch
+
+
+def paths_to(sch, mi, maxlen=4, cap=40):
+    """name paths (through singular message-typed fields and extensions only) from the options message to messages of
+    type index mi, shortest first"""
+    out, frontier = [], [([], 0)]
+    for _ in range(maxlen):
+        nxt = []
+        for parts, cur in frontier:
+            steps = [(("f", f.name), f) for f in sch.fields_of(cur)] + [(("x", x["name"]), x["field"]) for x in sch.exts_of(cur)]
+            for part, f in steps:
+                if f.is_msg() and not f.rep:
+                    if sch.msgs[f.kind[1]]["where"] == "std":
+                        continue
+                    q = parts + [part]
+                    if f.kind[1] == mi:
+                        out.append(q)
+                    nxt.append((q, f.kind[1]))
+        frontier = nxt[:4 * cap]
+        if len(out) >= cap:
+            break
+    return out[:cap]
+
+
+def zero_value_of(sch, f):
+    k = f.kind
+    if f.is_enum():
+        return ("ident", sch.enums[k[1]]["values"][0][0])
+    if k in INT_RANGE:
+        return ("int", 0)
+    if k == "bool":
+        return ("ident", "false")
+    if k in ("float", "double"):
+        return ("float", "0.0")
+    return ("str", [])
+
+
+def same_field_stmts(rng, sch, lits=True):
+    """2..4 statements that reach ONE field descriptor (a scalar / enum / repeated / message-typed field of a user message
+    that several paths lead to) through different paths - now and then through the same path twice, which protoc rejects
+    for a singular field -, zero and non-zero values mixed, sometimes one of them spelled as a message literal.
+    -> statements, or None when no message of the schema is reached by two paths"""
+    cands = []
+    for mi, m in enumerate(sch.msgs):
+        if m["where"] == "std" or not m["fields"]:
+            continue
+        ps = paths_to(sch, mi)
+        if len(ps) >= 2:
+            cands.append((mi, ps))
+    if not cands:
+        return None
+    # messages with fields without presence first
+    imp = [c for c in cands if any(f.implicit for f in sch.fields_of(c[0]))]
+    mi, ps = rng.choice(imp) if imp and rng.chance(3, 4) else rng.choice(cands)
+    fields = sch.fields_of(mi)
+    impf = [f for f in fields if f.implicit]
+    f = rng.choice(impf) if impf and rng.chance(2, 3) else rng.choice(fields)
+    n = rng.range(2, 4)
+    chosen = []
+    for _ in range(n):
+        if chosen and rng.chance(1, 5):
+            chosen.append(rng.choice(chosen))          # the same path again
+        else:
+            chosen.append(rng.choice(ps[:12]))
+    out = []
+    for q in chosen:
+        if f.is_msg():
+            v = rand_value(rng, sch, f, 2, 0, lits=lits)
+        elif rng.chance(1, 2):
+            v = zero_value_of(sch, f)
+        else:
+            v = rand_scalar_value(rng, sch, f, 0)
+        st = (list(q) + [("f", f.name)], v)
+        if lits and rng.chance(1, 6):
+            st = rng.choice(respellings(st))
+        out.append(st)
+    if rng.chance(1, 4):
+        out.insert(rng.range(0, len(out)), rand_stmt(rng, sch, wrong=3, lits=lits))
+    return out
+
+
+def twin_corpus():
+    """statement lists for twin_schema: every pair of paths to P3 (without presence), Q (presence) and ED (editions) on a
+    rotating leaf with zero / non-zero values; the same with the first path repeated at the end (rejected: already set);
+    message-literal spellings; repeated message elements; oneof members of one type"""
+    out = []
+    groups = {
+        "p": ([X("(xp)"), X("(xp2)"), X("(xp)", "sub"), X("(xp2)", "sub"), X("(xw)", "l"), X("(xw)", "r"), X("(xw)", "l", "sub"),
+               X("(xw)", "w", "l"), X("(xw)", "w", "r"), X("(xp)", "sub", "sub"), X("(xw)", "w", "w", "l")],
+              [("a", I(0), I(10)), ("s", ("str", []), ("str", [120])), ("b", ("ident", "false"), ("ident", "true")),
+               ("e", ("ident", "OE_Z"), ("ident", "OE_A")), ("d", ("float", "0.0"), ("float", "1.5")), ("o", I(0), I(3)),
+               ("y", ("str", []), ("str", [0])), ("u", I(0), I(2**64 - 1)), ("g", ("float", "0.0"), ("ident", "inf"))]),
+        "q": ([X("(xq)"), X("(xq2)"), X("(xq)", "sub"), X("(xw)", "lq"), X("(xw)", "rq"), X("(xw)", "w", "lq"), X("(xw)", "lq", "sub")],
+              [("a", I(0), I(10)), ("s", ("str", []), ("str", [120])), ("b", ("ident", "false"), ("ident", "true"))]),
+        "e": ([X("(xe)"), X("(xe2)"), X("(xe)", "sub"), X("(xw)", "le"), X("(xw)", "re"), X("(xw)", "w", "re"), X("(xe2)", "sub", "sub")],
+              [("a", I(0), I(10)), ("s", ("str", []), ("str", [120])), ("o", I(0), I(3)), ("e", ("ident", "EE_Z"), ("ident", "EE_A")),
+               ("b", ("ident", "false"), ("ident", "true"))]),
+    }
+    n = 0
+    for g in ("p", "q", "e"):
+        paths, leaves = groups[g]
+        for i in range(len(paths)):
+            for j in range(i + 1, len(paths)):
+                leaf, z, nz = leaves[n % len(leaves)]
+                va, vb = [(z, z), (z, nz), (nz, z), (nz, nz)][(n // len(leaves)) % 4]
+                a, b = (paths[i] + [("f", leaf)], va), (paths[j] + [("f", leaf)], vb)
+                out.append([a, b])
+                if n % 3 == 0:
+                    out.append([a, b, (paths[i] + [("f", leaf)], nz)])       # the first path again: already set
+                if n % 3 == 1:
+                    out.append([b, a, (paths[j] + [("f", leaf)], z)])
+                if n % 4 == 2:
+                    out.append([a, rs] if (rs := respellings(b)) and (rs := rs[n % len(rs)]) else [a, b])
+                if n % 4 == 3:
+                    out.append([respellings(a)[0], b] if len(a[0]) > 1 else [a, b])
+                n += 1
+    A0, A5 = LM(("a", I(0))), LM(("a", I(5)))
+    out += [
+        # the example of the finding: sibling sub-messages of one type
+        [(X("(xw)", "l", "a"), I(0)), (X("(xw)", "r", "a"), I(10))],
+        [(X("(xw)", "l", "a"), I(0)), (X("(xw)", "r", "a"), I(0)), (X("(xw)", "l", "s"), ("str", [])), (X("(xw)", "r", "s"), ("str", []))],
+        [(X("(xw)", "l", "a"), I(0)), (X("(xw)", "r", "a"), I(10)), (X("(xw)", "l", "a"), I(0))],
+        [(X("(xw)", "l", "a"), I(0)), (X("(xw)", "l", "sub", "a"), I(0)), (X("(xw)", "l", "sub", "sub", "a"), I(0)), (X("(xw)", "l", "sub", "a"), I(1))],
+        # literals
+        [(X("(xw)"), LM(("l", A0), ("r", A0)))],
+        [(X("(xw)"), LM(("l", A0), ("r", A0))), (X("(xp)", "a"), I(0))],
+        [(X("(xw)", "l"), A0), (X("(xw)", "r", "a"), I(0))],
+        [(X("(xw)", "l", "a"), I(0)), (X("(xw)", "r"), A0)],
+        [(X("(xw)", "l"), A0), (X("(xw)", "r"), A0)],
+        [(X("(xw)", "l"), A0), (X("(xw)", "l", "a"), I(5))],
+        [(X("(xw)", "l"), A5), (X("(xw)", "l", "a"), I(0))],
+        [(X("(xp)"), LM(("a", I(0)), ("sub", A0))), (X("(xp2)", "a"), I(0))],
+        [(X("(xp)", "sub"), LM(("a", I(0)), ("a", I(0))))],
+        # repeated message elements
+        [(X("(xrp)"), A0), (X("(xrp)"), A0), (X("(xrp)"), A5)],
+        [(X("(xrp)"), A0), (X("(xp)", "a"), I(0)), (X("(xrp)"), LM(("a", I(0)), ("s", ("str", []))))],
+        [(X("(xw)", "rp"), A0), (X("(xw)", "rp"), A0), (X("(xw)", "l", "a"), I(0))],
+        [(X("(xw)"), LM(("rp", ("list", [A0, A0]))))],
+        [(X("(xw)"), LM(("rp", A0), ("rp", A5), ("l", A0)))],
+        [(X("(xp)", "rs"), A0), (X("(xp)", "rs"), A0), (X("(xp)", "a"), I(0))],
+        [(X("(xp)", "r"), I(0)), (X("(xp)", "r"), I(0)), (X("(xp2)", "r"), I(0))],
+        # oneof members of one type
+        [(X("(xw)", "ol", "a"), I(0)), (X("(xw)", "ol", "s"), ("str", []))],
+        [(X("(xw)", "ol", "a"), I(0)), (X("(xw)", "orr", "a"), I(0))],
+        [(X("(xw)", "ol", "a"), I(0)), (X("(xw)", "l", "a"), I(0)), (X("(xw)", "w", "ol", "a"), I(0))],
+        # a rejected statement between the two (lenient runs)
+        [(X("(xw)", "l", "a"), I(0)), (X("(xw)", "l", "nosuch"), I(1)), (X("(xw)", "r", "a"), I(0))],
+        [(X("(xw)", "l", "a"), ("str", [120])), (X("(xw)", "r", "a"), I(0)), (X("(xw)", "l", "a"), I(0))],
+        # standard options next to them
+        [(X("deprecated"), ("ident", "false")), (X("(xp)", "a"), I(0)), (X("(xp2)", "a"), I(0))],
+    ]
+    return out
+
+
 def respellings(st):
     """the same assignment written with the name / value boundary elsewhere: (p1..pk) = { pk+1 { .. pn: v } } for every
     k, and a literal with a single field folded into the name.  (Not always equivalent - repeated fields - and not
@@ -622,16 +856,34 @@ def _type_name(sch, k):
 
 
 def render_schema(sch):
-    """-> (main schema text (proto2, without the syntax line and imports), p3 file text or None)"""
+    """-> (main schema text (proto2, without the syntax line and imports), p3 file text or None); messages and enums
+    with where == "ed" go to sch.ed_text (edition 2023, file ed.proto)"""
     out = []
     p3 = []
+    ed = []
     for e in sch.enums:
         if e["where"] == "main":
             out.append("enum %s { %s }" % (e["name"], " ".join("%s = %d;" % (n, v) for n, v in e["values"])))
         elif e["where"] == "p3":
             p3.append("enum %s { %s }" % (e["name"], " ".join("%s = %d;" % (n, v) for n, v in e["values"])))
+        elif e["where"] == "ed":
+            ed.append("enum %s { %s }" % (e["name"], " ".join("%s = %d;" % (n, v) for n, v in e["values"])))
     for mi, m in enumerate(sch.msgs):
         if m["where"] == "std":
+            continue
+        if m["where"] == "ed":
+            # edition 2023: presence is explicit unless the field says features.field_presence = IMPLICIT
+            body, oneof = [], []
+            for f in m["fields"]:
+                o = ["targets = %s" % TARGET_NAMES[t] for t in f.targets]
+                if f.implicit:
+                    o.append("features.field_presence = IMPLICIT")
+                opts = (" [" + ", ".join(o) + "]") if o else ""
+                line = "%s%s %s = %d%s;" % ("repeated " if f.rep else "", _type_name(sch, f.kind), f.name, f.num, opts)
+                (oneof if f.oneof is not None else body).append(line)
+            if oneof:
+                body.append("oneof o0 { %s }" % " ".join(oneof))
+            ed.append("message %s { %s }" % (m["name"], " ".join(body)))
             continue
         is3 = m["where"] == "p3"
         body = []
@@ -671,6 +923,7 @@ def render_schema(sch):
     p3text = None
     if p3:
         p3text = 'syntax = "proto3";\n' + "\n".join(p3) + "\n"
+    sch.ed_text = ('edition = "2023";\n' + "\n".join(ed) + "\n") if ed else None
     return "\n".join(out) + "\n", p3text
 
 
@@ -907,41 +1160,52 @@ def stmt_coq(st):
     return "(mkStmt [%s] %s)" % ("; ".join('%s "%s"' % ("PField" if k == "f" else "PExt", n) for k, n in parts), val_coq(v))
 
 
-def render_file(sch, stmts, extra_elems=None):
-    """One file t.proto with the schema and the target element carrying the statements.
-    -> files dict, element key as the harness names it"""
-    body, p3 = render_schema(sch)
-    ek = sch.ek
+def elem_text(ek, name, stmts):
+    """the source of one element of kind ek called name (Tgt...) carrying the statements -> (text, harness key)"""
     opts = ["%s = %s" % (name_text(p), val_text(v)) for p, v in stmts]
     decl = " ".join("option %s;" % o for o in opts)
     compact = (" [" + ", ".join(opts) + "]") if opts else ""
     if ek == "file":
-        elem, key = decl, "file"
-    elif ek == "message":
-        elem, key = "message Tgt { %s }" % decl, "msg:Tgt"
-    elif ek == "field":
-        elem, key = "message Tgt { optional int32 tf = 1%s; }" % compact, "field:Tgt.tf"
-    elif ek == "oneof":
-        elem, key = "message Tgt { oneof oo { %s int32 ta = 1; } }" % decl, "oneof:Tgt.oo"
-    elif ek == "extrange":
-        elem, key = "message Tgt { extensions 100 to 200%s; }" % compact, "extrange:Tgt.100-201"
-    elif ek == "enum":
-        elem, key = "enum Tgt { %s TGT_ZERO = 0; }" % decl, "enum:Tgt"
-    elif ek == "enumval":
-        elem, key = "enum Tgt { TGT_ZERO = 0%s; }" % compact, "enumval:Tgt.TGT_ZERO"
-    elif ek == "service":
-        elem, key = "service Tgt { %s }" % decl, "service:Tgt"
-    elif ek == "method":
-        elem, key = "message TgtIO {} service Tgt { rpc Do (TgtIO) returns (TgtIO) { %s } }" % decl, "method:Tgt.Do"
-    else:
-        raise ValueError(ek)
+        return decl, "file"
+    if ek == "message":
+        return "message %s { %s }" % (name, decl), "msg:%s" % name
+    if ek == "field":
+        return "message %s { optional int32 tf = 1%s; }" % (name, compact), "field:%s.tf" % name
+    if ek == "oneof":
+        return "message %s { oneof oo { %s int32 ta = 1; } }" % (name, decl), "oneof:%s.oo" % name
+    if ek == "extrange":
+        return "message %s { extensions 100 to 200%s; }" % (name, compact), "extrange:%s.100-201" % name
+    if ek == "enum":
+        return "enum %s { %s %s_ZERO = 0; }" % (name, decl, name.upper()), "enum:%s" % name
+    if ek == "enumval":
+        return "enum %s { %s_ZERO = 0%s; }" % (name, name.upper(), compact), "enumval:%s.%s_ZERO" % (name, name.upper())
+    if ek == "service":
+        return "service %s { %s }" % (name, decl), "service:%s" % name
+    if ek == "method":
+        return "message %sIO {} service %s { rpc Do (%sIO) returns (%sIO) { %s } }" % (name, name, name, name, decl), "method:%s.Do" % name
+    raise ValueError(ek)
+
+
+def render_file(sch, stmts, extra_elems=None, again=None):
+    """One file t.proto with the schema and the target element carrying the statements.  again: statements of a
+    second element of the same kind (Tgt2) that follows the target (what one element's options leave behind in the
+    interpreter must not reach the next element).  -> files dict, element key as the harness names it"""
+    body, p3 = render_schema(sch)
+    ek = sch.ek
+    elem, key = elem_text(ek, "Tgt", stmts)
+    if again is not None and ek != "file":
+        elem += "\n" + elem_text(ek, "Tgt2", again)[0]
     imports = 'import "google/protobuf/descriptor.proto";\n'
     if p3:
         imports += 'import "p3.proto";\n'
+    if getattr(sch, "ed_text", None):
+        imports += 'import "ed.proto";\n'
     text = 'syntax = "proto2";\n' + imports + body + elem + "\n" + (extra_elems or "")
     files = {"t.proto": text}
     if p3:
         files["p3.proto"] = p3
+    if getattr(sch, "ed_text", None):
+        files["ed.proto"] = sch.ed_text
     return files, key
 
 
@@ -1113,14 +1377,14 @@ def coq_eval_multi(name, header, case_terms, chks, shard_size=300, timeout=1500,
 
 
 # ------------------------------------------------------------------ one generated case, end to end
-def make_case(rng, ctx, ek, nst, rich=True, lits=True, wrong=12, fixed=None, tdense=False):
+def make_case(rng, ctx, ek, nst, rich=True, lits=True, wrong=12, fixed=None, tdense=False, again=None):
     """-> dict(sch, stmts, files, key, input)"""
     if fixed is not None:
         sch, stmts = fixed
     else:
         sch = gen_schema(ctx, rng, ek, rich=rich, tdense=tdense) if tdense else gen_schema(ctx, rng, ek, rich=rich)
         stmts = [rand_stmt(rng, sch, wrong=wrong, lits=lits) for _ in range(nst)]
-    files, key = render_file(sch, stmts)
+    files, key = render_file(sch, stmts, again=again)
     return {"sch": sch, "stmts": stmts, "files": files, "key": key,
             "input": {"mode": "interp", "files": files, "target": "t.proto"}}
 
